@@ -14,7 +14,7 @@
 (*                            p % NPARTS = PART                            *)
 (*   QV_SEED                  VERIF_SEED, rotates sampled sub-grids        *)
 (***************************************************************************)
-EXTENDS Impl, Big, TLC, Json, IOUtils, SequencesExt, FiniteSetsExt
+EXTENDS Impl, TLC, Json, IOUtils, SequencesExt, FiniteSetsExt
 
 EnvOr(name, default) == IF name \in DOMAIN IOEnv THEN IOEnv[name] ELSE default
 Tier == EnvOr("QV_TIER", "quick")
